@@ -52,6 +52,12 @@ def jobs(tier):
             cfg = {"lens": [0, 1], "counts": [3, 4, 5] if tier == "quick" else [3, 4, 5, 6, 7, 8]}
             js.append(dict(name=f"roundtrip[{c['name']},counts=3..{cfg['counts'][-1]}]", fn="roundtrip", args=[corpus.closure(types, c["instrs"]), c, cfg],
                            tree="core", collect_models=1, expect=["deserializer consumes exactly the bytes written"]))
+    # a second object of the class after a first one went through the whole cycle (class-level state in generated code)
+    small = {"lens": [0, 1], "counts": [0, 1]}
+    for c in cls:
+        if corpus.structures(types, c["instrs"], small) <= (12 if tier == "quick" else 40):
+            js.append(dict(name=f"second_object[{c['name']}]", fn="second_object", args=[corpus.closure(types, c["instrs"]), c, small],
+                           tree="core", collect_models=1, expect=["second object: deserializer consumes exactly the bytes written"]))
     # the same classes generated in isolation (a tree of their own): order effects inside the generator
     for m in MINI:
         _, mtypes, mcls = corpus.mini(m)
